@@ -1219,11 +1219,86 @@ impl Val for char {
     }
 }
 
-fn c19_sequence<T: Val>(size: usize, nops: usize, rng: &mut Rng, rep: &mut Report, tname: &str) {
+/// The statement of C19 speaks of "that hash's slot" without saying how a slot is derived from a hash (the pinned
+/// code uses `hash & (size - 1)`).  The monitor therefore does not assume a mapping: it *infers* which hashes
+/// share a slot by probing a scratch table of the same size (every representative of a known slot class is kept
+/// resident; a new hash is written and the representative that disappears, if any, names its class).  For a library
+/// that keeps the property under any deterministic mapping the inferred classes are the true slots; a library that
+/// breaks the property cannot make the exact model below agree with it by confusing the inference, because hits
+/// under a hash that was never written and lost values are judged per hash.
+struct SlotOracle {
+    scratch: CacheTable<u32>,
+    search: CacheTable<u32>,
+    reps: Vec<u64>,
+    class_of: std::collections::HashMap<u64, usize>,
+    size: usize,
+}
+
+impl SlotOracle {
+    fn new(size: usize) -> SlotOracle {
+        SlotOracle { scratch: CacheTable::new(size, 0), search: CacheTable::new(size, 0), reps: vec![], class_of: Default::default(), size }
+    }
+    fn class(&mut self, h: u64) -> usize {
+        if let Some(c) = self.class_of.get(&h) {
+            return *c;
+        }
+        self.scratch.add(h, 1);
+        let mut found = None;
+        for (i, r) in self.reps.iter().enumerate() {
+            if *r != h && self.scratch.get(*r).is_none() {
+                found = Some(i);
+                break;
+            }
+        }
+        let c = match found {
+            Some(i) => {
+                self.scratch.add(self.reps[i], 1);
+                i
+            }
+            None => {
+                self.reps.push(h);
+                self.reps.len() - 1
+            }
+        };
+        self.class_of.insert(h, c);
+        c
+    }
+    /// another hash that lands in the slot of `h0`: first the guess of the pinned mapping (same low bits), then search
+    fn partner(&mut self, h0: u64, rng: &mut Rng, budget: usize) -> Option<u64> {
+        self.search.add(h0, 1);
+        let mask = self.size as u64 - 1;
+        for i in 0..budget {
+            let q = if i == 0 { (rng.next() & !mask) | (h0 & mask) } else { rng.next() };
+            if q == h0 {
+                continue;
+            }
+            self.search.add(q, 2);
+            if self.search.get(h0).is_none() {
+                return Some(q);
+            }
+        }
+        None
+    }
+    fn low_bits_mapping(&self) -> bool {
+        // do the inferred classes coincide with `hash & (size-1)` on everything classified so far?
+        let mask = self.size as u64 - 1;
+        let mut low_of_class: std::collections::HashMap<usize, u64> = Default::default();
+        let mut class_of_low: std::collections::HashMap<u64, usize> = Default::default();
+        for (h, c) in self.class_of.iter() {
+            if *low_of_class.entry(*c).or_insert(h & mask) != h & mask || *class_of_low.entry(h & mask).or_insert(*c) != *c {
+                return false;
+            }
+        }
+        true
+    }
+}
+
+fn c19_sequence<T: Val>(size: usize, nops: usize, rng: &mut Rng, rep: &mut Report, tname: &str, miri: bool) {
     let default = T::make(rng.next());
     let mut table: CacheTable<T> = CacheTable::new(size, default);
-    // model: slot -> (hash under which it was last written, value); fresh = (0, default)
-    let mut model: Vec<(u64, T)> = vec![(0, default); size];
+    let mut oracle = SlotOracle::new(size);
+    // model: slot class -> (hash under which it was last written, value); absent = fresh = (0, default)
+    let mut model: std::collections::HashMap<usize, (u64, T)> = Default::default();
     // hash pool: collide in the low bits, differ in the high bits; plus 0 and u64::MAX
     let mut pool: Vec<u64> = vec![0, u64::MAX, size as u64, (size as u64).wrapping_sub(1), 1u64 << 63];
     let nslots = 1 + rng.below(6.min(size));
@@ -1252,6 +1327,33 @@ fn c19_sequence<T: Val>(size: usize, nops: usize, rng: &mut Rng, rep: &mut Repor
     }
     pool.push(1u64 << 32);
     pool.push(0xdead_beef_0000_0000);
+    // pairs whose two 32-bit halves fold (xor / sum) to the same word and which share their low bits:
+    // a stored key folded to 32 bits would confuse them
+    for _ in 0..4 {
+        let h = pool[rng.below(n0)];
+        let d = (rng.next() & 0xffff_ff00) & !((size as u64 - 1) & 0xffff_ffff);
+        pool.push(h ^ d ^ (d << 32));
+        let hi = h >> 32;
+        let lo = h & 0xffff_ffff;
+        let e = d & 0x00ff_ff00;
+        pool.push((hi.wrapping_sub(e) & 0xffff_ffff) << 32 | (lo.wrapping_add(e) & 0xffff_ffff));
+    }
+    // slot sharing is inferred, not assumed: make sure that there ARE hashes sharing a slot whatever the mapping is
+    let budget = if miri { 48 } else { (8 * size).min(300_000).max(64) };
+    let mut shared = 0;
+    for i in 0..nslots.min(4) {
+        let h0 = pool[5 + i.min(pool.len() - 6)];
+        for _ in 0..2 {
+            if let Some(q) = oracle.partner(h0, rng, budget) {
+                pool.push(q);
+                shared += 1;
+            }
+        }
+    }
+    if shared > 0 {
+        rep.count("ev_sequences_with_searched_slot_partners");
+    }
+    let pool_classes: std::collections::HashSet<usize> = pool.iter().map(|h| oracle.class(*h)).collect();
     rep.count("ev_sequences");
     rep.count(&format!("ev_size_log2_{}", size.trailing_zeros()));
     // untouched slots all over the table (also its upper end) must behave as (hash 0, default):
@@ -1264,10 +1366,11 @@ fn c19_sequence<T: Val>(size: usize, nops: usize, rng: &mut Rng, rep: &mut Repor
                 1 => rng.below(size),
                 _ => size / 2 + rng.below(size / 2),
             } as u64;
-            if model[slot as usize].0 != 0 || pool.iter().any(|h| h % size as u64 == slot) {
+            let h = (rng.next() & !((size as u64) - 1)) | slot;
+            let c = oracle.class(h);
+            if h == 0 || model.contains_key(&c) || pool_classes.contains(&c) {
                 continue;
             }
-            let h = (rng.next() & !((size as u64) - 1)) | slot;
             let v = T::make(rng.next());
             let seen = std::cell::Cell::new(None::<T>);
             rep.count("op_replace_if");
@@ -1279,7 +1382,7 @@ fn c19_sequence<T: Val>(size: usize, nops: usize, rng: &mut Rng, rep: &mut Repor
             if !same_opt(seen.get(), Some(default)) {
                 rep.violation(&format!("C19/fresh-slot/predicate-sees-non-default/{}", tname), format!("size={} slot={} predicate saw {:?}, default is {:?}", size, slot, seen.get(), default));
             }
-            model[slot as usize] = (h, v);
+            model.insert(c, (h, v));
             rep.count("op_get");
             if !same_opt(table.get(h), Some(v)) {
                 rep.violation(&format!("C19/fresh-slot/conditional-write-lost/{}", tname), format!("size={} slot={} hash={:x}", size, slot, h));
@@ -1287,26 +1390,28 @@ fn c19_sequence<T: Val>(size: usize, nops: usize, rng: &mut Rng, rep: &mut Repor
             pool.push(h);
         }
     }
+    rep.count(if oracle.low_bits_mapping() { "info_slot_is_low_bits_of_hash" } else { "info_slot_is_not_low_bits_of_hash" });
     let mut seq_hash = size as u64;
     for step in 0..nops {
         let h = *rng.pick(&pool);
-        let slot = (h % size as u64) as usize;
+        let slot = oracle.class(h);
+        let held = *model.get(&slot).unwrap_or(&(0, default));
         rep.eval();
         match rng.below(4) {
             0 => {
                 let v = T::make(rng.next());
                 rep.count("op_add");
-                if model[slot].0 != h {
+                if held.0 != h {
                     rep.count("ev_overwrite_other_hash");
                 }
                 table.add(h, v);
-                model[slot] = (h, v);
+                model.insert(slot, (h, v));
                 seq_hash = seq_hash.wrapping_mul(31).wrapping_add(h ^ v.key());
             }
             1 => {
                 let v = T::make(rng.next());
                 let mode = rng.below(3);
-                let cur = model[slot].1;
+                let cur = held.1;
                 let threshold = T::make(rng.next());
                 let seen = std::cell::Cell::new(None::<T>);
                 let calls = std::cell::Cell::new(0u32);
@@ -1337,7 +1442,7 @@ fn c19_sequence<T: Val>(size: usize, nops: usize, rng: &mut Rng, rep: &mut Repor
                 }
                 if should {
                     rep.count("ev_replace_true");
-                    model[slot] = (h, v);
+                    model.insert(slot, (h, v));
                 } else {
                     rep.count("ev_replace_false");
                 }
@@ -1347,10 +1452,11 @@ fn c19_sequence<T: Val>(size: usize, nops: usize, rng: &mut Rng, rep: &mut Repor
         }
         // lookups: the hash just used, and a colliding / random one
         for q in [h, *rng.pick(&pool)].iter() {
-            let qs = (*q % size as u64) as usize;
-            let want = if model[qs].0 == *q { Some(model[qs].1) } else { None };
+            let qs = oracle.class(*q);
+            let held = *model.get(&qs).unwrap_or(&(0, default));
+            let want = if held.0 == *q { Some(held.1) } else { None };
             rep.count("op_get");
-            if model[qs].0 != *q && model[qs].0 % size as u64 == *q % size as u64 && (model[qs].0 != 0 || !model[qs].1.same(&default)) {
+            if held.0 != *q && (held.0 != 0 || !held.1.same(&default)) {
                 rep.count("ev_lookup_colliding_slot");
             }
             let got = table.get(*q);
@@ -1362,7 +1468,7 @@ fn c19_sequence<T: Val>(size: usize, nops: usize, rng: &mut Rng, rep: &mut Repor
                 };
                 rep.violation(
                     &format!("C19/get/{}/{}", sig, tname),
-                    format!("size={} step={} get({:x}) = {:?} want {:?} (slot last written under {:x})", size, step, q, got, want, model[qs].0),
+                    format!("size={} step={} get({:x}) = {:?} want {:?} (slot last written under {:x})", size, step, q, got, want, held.0),
                 );
             }
         }
@@ -1388,7 +1494,7 @@ fn c19_false_hit_probe(size: usize, n: u64, rng: &mut Rng, rep: &mut Report) {
         x ^= x << 25;
         x ^= x >> 27;
         let q = (x.wrapping_mul(0x2545F4914F6CDD1D) & !mask) | low;
-        if q == h0 {
+        if q == h0 || q == 0 {
             continue;
         }
         if table.get(q).is_some() {
@@ -1472,14 +1578,14 @@ pub fn run_c19(ctx: &Ctx, rep: &mut Report) {
         let size = 1usize << k;
         let nops = if miri { 60 } else if size > 1 << 18 { 400 } else { 3000 };
         match gid % 8 {
-            5 => c19_sequence::<f64>(size, nops, rng, rep, "f64"),
-            6 => c19_sequence::<f32>(size, nops, rng, rep, "f32"),
-            7 => c19_sequence::<Scored>(size, nops, rng, rep, "scored"),
-            0 => c19_sequence::<u64>(size, nops, rng, rep, "u64"),
-            1 => c19_sequence::<Pair>(size, nops, rng, rep, "pair"),
-            2 => c19_sequence::<Wide>(size, nops, rng, rep, "wide"),
-            3 => c19_sequence::<Odd>(size, nops, rng, rep, "odd"),
-            _ => c19_sequence::<char>(size, nops, rng, rep, "char"),
+            5 => c19_sequence::<f64>(size, nops, rng, rep, "f64", miri),
+            6 => c19_sequence::<f32>(size, nops, rng, rep, "f32", miri),
+            7 => c19_sequence::<Scored>(size, nops, rng, rep, "scored", miri),
+            0 => c19_sequence::<u64>(size, nops, rng, rep, "u64", miri),
+            1 => c19_sequence::<Pair>(size, nops, rng, rep, "pair", miri),
+            2 => c19_sequence::<Wide>(size, nops, rng, rep, "wide", miri),
+            3 => c19_sequence::<Odd>(size, nops, rng, rep, "odd", miri),
+            _ => c19_sequence::<char>(size, nops, rng, rep, "char", miri),
         }
         if gid < 2 {
             rep.sample(format!("size 2^{}: {} random add/replace_if/get ops over a pool of colliding hashes, value type #{}", k, nops, gid % 8));
